@@ -15,7 +15,7 @@ import argparse, concurrent.futures as cf, hashlib, json, os, re, shutil, subpro
 
 VERIF = os.path.dirname(os.path.abspath(__file__))
 REPO = os.environ.get("VHOST_REPO", "/repo")
-WORK = os.path.join(VERIF, ".work")
+WORK = os.environ.get("VERIF_WORK", os.path.join(VERIF, ".work"))
 HARNESS_DIR = os.path.join(VERIF, "harness")
 EVIDENCE_DIR = os.path.join(VERIF, "evidence")
 REPLAY_DIR = os.path.join(VERIF, "replays")
@@ -163,8 +163,13 @@ def run_group(slot, pkg, hs, mem_kb, log_path, extra=(), jobs=1):
         res = parse_output(text, hs)
     for h in hs:
         r = res[h["name"]]
+        r["slot"] = slot
         if r["status"] in ("SUCCESS", "FAILED"):
             r["functions"] = encoded_functions(slot, h)
+            ph = harness_meta(slot, h)
+            if ph:
+                r["unwind"] = ph["attributes"].get("unwind_value")
+                r["stubs_applied"] = [x["original"].replace(" ", "") + " -> " + x["replacement"].replace(" ", "") for x in ph["attributes"].get("stubs", [])]
     for r in res.values():
         r["group_rc"] = p.returncode
         r["group_wall_s"] = round(wall, 1)
@@ -293,6 +298,59 @@ def encoded_functions(slot, h):
     return sorted(fns)
 
 
+def harness_meta(slot, h):
+    """Kani's own metadata for the harness as compiled in this slot: unwind bound, stubs really registered."""
+    import glob
+    best = None
+    for f in glob.glob(os.path.join(slot_dir(slot), "kani", "*", "debug", "build", h["pkg"], "*", "out", "*.kani-metadata.json")):
+        try:
+            m = json.load(open(f))
+        except Exception:
+            continue
+        for ph in m.get("proof_harnesses", []):
+            if ph.get("pretty_name") == h["fq"]:
+                if best is None or os.path.getmtime(f) > best[0]:
+                    best = (os.path.getmtime(f), ph)
+    return best[1] if best else None
+
+
+CBMC_FLAGS = ["--no-malloc-may-fail", "--no-undefined-shift-check", "--no-signed-overflow-check", "--nan-check",
+              "--no-self-loops-to-assumptions", "--no-pointer-primitive-check", "--object-bits", "16",
+              "--sat-solver", "cadical", "--slice-formula"]
+
+
+def sat_stats(slot, h, timeout=150):
+    """Kani's parallel mode hides CBMC's log, so for a sample of harnesses the instrumented GOTO binary Kani
+    produced is decided once more by CBMC directly (same flags) to record the size of the SAT instances."""
+    ph = harness_meta(slot, h)
+    if not ph:
+        return None
+    goto = ph["goto_file"].replace(".symtab.out", ".out")
+    if not os.path.exists(goto):
+        return None
+    cmd = ["cbmc"] + CBMC_FLAGS + (["--unwind", str(ph["attributes"]["unwind_value"])] if ph["attributes"].get("unwind_value") else []) + [goto]
+    try:
+        t0 = time.time()
+        out = subprocess.run(["bash", "-c", "ulimit -v 16000000; exec timeout %d %s" % (timeout, " ".join(map(shquote, cmd)))],
+                             capture_output=True, text=True).stdout
+        wall = time.time() - t0
+    except Exception:
+        return None
+    vc = re.findall(r"^(\d+) variables, (\d+) clauses", out, flags=re.M)
+    if not vc:
+        return None
+    m1 = re.search(r"size of program expression: (\d+) steps", out)
+    m2 = re.search(r"Generated (\d+) VCC\(s\), (\d+) remaining", out)
+    m3 = re.search(r"Runtime Symex: ([0-9.e+-]+)s", out)
+    return {"harness": h["name"], "program_steps": int(m1.group(1)) if m1 else 0,
+            "vccs_generated": int(m2.group(1)) if m2 else 0, "vccs_after_simplification": int(m2.group(2)) if m2 else 0,
+            "sat_variables": max(int(a) for a, _ in vc), "sat_clauses": max(int(b) for _, b in vc),
+            "sat_queries": len(re.findall(r"SAT checker: instance is", out)),
+            "solver_s": round(sum(float(x) for x in re.findall(r"Runtime Solver: ([0-9.e+-]+)s", out)), 3),
+            "symex_s": round(float(m3.group(1)), 2) if m3 else 0.0, "cbmc_wall_s": round(wall, 1),
+            "verdict_line": (re.findall(r"^VERIFICATION (\w+)", out, flags=re.M) or ["?"])[-1]}
+
+
 def last_error_lines(t):
     ls = [l for l in t.split("\n") if l.strip()]
     return "\n".join(ls[-12:])
@@ -403,7 +461,17 @@ def write_evidence(prop, tier, seed, hs, results, verdicts, wall, violations, kn
                         "stubs": h["stubs"], "verdict": verdicts[h["name"]][0], "status": r["status"],
                         "cbmc_checks": r["checks_total"], "covers": f"{r['covers_sat']}/{r['covers_total']}",
                         "program_steps": r["steps"], "vccs": r["vccs"], "sat_vars": r["variables"],
-                        "sat_clauses": r["clauses"], "solver_s": r["solver_s"], "verification_s": r["verification_s"]})
+                        "sat_clauses": r["clauses"], "verification_s": r["verification_s"], "unwind": r.get("unwind"),
+                        "stubs_applied": r.get("stubs_applied", []), "reused_from_cache": bool(r.get("from_cache"))})
+    # SAT-level statistics for a sample (the cheapest harnesses): CBMC run directly on Kani's GOTO binaries
+    sat_sample = []
+    cands = sorted([h for h in ok if results[h["name"]]["status"] == "SUCCESS" and results[h["name"]].get("slot") is not None],
+                   key=lambda h: results[h["name"]]["verification_s"])[:3]
+    if cands and not os.environ.get("VERIF_NO_SAT_SAMPLE"):
+        with cf.ThreadPoolExecutor(max_workers=3) as ex:
+            for st in ex.map(lambda h: sat_stats(results[h["name"]]["slot"], h), cands):
+                if st:
+                    sat_sample.append(st)
     nontrivial = len({h["name"] for h in ok if results[h["name"]]["checks_total"] > 0
                       and results[h["name"]]["covers_sat"] == results[h["name"]]["covers_total"]})
     ev = {
@@ -417,14 +485,13 @@ def write_evidence(prop, tier, seed, hs, results, verdicts, wall, violations, kn
                     "was SATISFIED, no unwinding assertion failed and nothing was UNDETERMINED",
             "samples": samples,
             "exhaustive": False,
-            "queries_discharged": tot["sat_calls"],
-            "cbmc_properties_checked": tot["cbmc_checks"],
-            "verification_conditions": tot["vccs"],
+            "cbmc_properties_decided": tot["cbmc_checks"],
+            "sat_statistics_sample": sat_sample,
+            "sat_queries_in_sample": sum(x["sat_queries"] for x in sat_sample),
+            "solver_time_in_sample_s": round(sum(x["solver_s"] for x in sat_sample), 3),
+            "verification_time_total_s": round(sum(results[h["name"]]["verification_s"] for h in hs), 1),
             "cover_witnesses_satisfied": tot["covers"],
             "results_reused_from_same_tree_cache": sum(1 for h in hs if results[h["name"]].get("from_cache")),
-            "solver_time_s": round(tot["solver_s"], 2),
-            "symex_time_s": round(tot["symex_s"], 2),
-            "largest_sat_instance": {"variables": tot["variables_max"], "clauses": tot["clauses_max"]},
             "functions_encoded_from_repo": sorted(funcs),
             "functions_encoded_count": len(funcs),
             "repo_head": git_head(),
@@ -534,9 +601,10 @@ def gen_uapi():
     if p.returncode != 0:
         raise SystemExit("uapi/gen.c does not compile:\n" + p.stderr)
     out = subprocess.run([exe], capture_output=True, text=True).stdout
-    tgt = os.path.join(WORK, "uapi_table.rs")
-    if not os.path.exists(tgt) or open(tgt).read() != out:
-        open(tgt, "w").write(out)
+    for tgt in {os.path.join(WORK, "uapi_table.rs"), os.path.join(VERIF, ".work", "uapi_table.rs")}:
+        os.makedirs(os.path.dirname(tgt), exist_ok=True)
+        if not os.path.exists(tgt) or open(tgt).read() != out:
+            open(tgt, "w").write(out)
 
 
 def setup(nslots):
@@ -677,7 +745,7 @@ def main():
         print(l)
     for l in out_lines:
         print(l)
-    if not a.harness:
+    if not a.harness and not os.environ.get("VERIF_NO_EVIDENCE"):
         write_evidence(prop, a.tier, seed, hs, results, verdicts, wall, nviol, list(dict.fromkeys(known_lines)))
     print(f"[{prop}] tier={a.tier} harnesses={len(hs)} wall={wall:.0f}s exit={rc}")
     return rc
